@@ -240,7 +240,7 @@ pub enum Keyword {
     Use,
     Variable,
     View,
-    Vpgk,
+    Vpkg,
     Vmode,
     Vprop,
     Vunit,
@@ -364,7 +364,7 @@ impl Keyword {
             Self::Use => Latin1Str::new(b"use"),
             Self::Variable => Latin1Str::new(b"variable"),
             Self::View => Latin1Str::new(b"view"),
-            Self::Vpgk => Latin1Str::new(b"vpgk"),
+            Self::Vpkg => Latin1Str::new(b"vpkg"),
             Self::Vmode => Latin1Str::new(b"vmode"),
             Self::Vprop => Latin1Str::new(b"vprop"),
             Self::Vunit => Latin1Str::new(b"vunit"),
@@ -489,7 +489,7 @@ impl Keyword {
             b"use" => Self::Use,
             b"variable" => Self::Variable,
             b"view" => Self::View,
-            b"vpgk" => Self::Vpgk,
+            b"vpkg" => Self::Vpkg,
             b"vmode" => Self::Vmode,
             b"vprop" => Self::Vprop,
             b"vunit" => Self::Vunit,
@@ -508,7 +508,7 @@ impl Keyword {
         use VHDLStandard::*;
         match self {
             // VHDL 2019
-            Self::View | Self::Private | Self::Vpgk => VHDL2019,
+            Self::View | Self::Private | Self::Vpkg => VHDL2019,
             // VHDL 2008
             // The keywords "assume_guarantee" and "restrict_guarantee" only appear in this
             // specific standard and are revoked later, see `removed_in`.
